@@ -15,6 +15,20 @@ Open Scope N_scope.
 
 Definition s2b (s:string) : bytes := map N_of_ascii (list_ascii_of_string s).
 
+(* string constants, evaluated here so that the extracted code contains byte lists (no Coq string type) *)
+Definition k_badfeat_n : bytes := Eval vm_compute in s2b "**=*n".
+Definition k_dot_org : bytes := Eval vm_compute in s2b ".org".
+Definition k_b64_alphabet : bytes := Eval vm_compute in s2b "ABCDEFGHIJKLMNOPQRSTUVWXYZabcdefghijklmnopqrstuvwxyz0123456789+/".
+Definition k_abc : bytes := Eval vm_compute in s2b "abc".
+Definition k_irrelevant : bytes := Eval vm_compute in s2b "irrelevant".
+Definition k_n : bytes := Eval vm_compute in s2b "n".
+Definition k_nonce : bytes := Eval vm_compute in s2b "nonce".
+Definition k_obMatJos2 : bytes := Eval vm_compute in s2b "obMatJos2".
+Definition k_pass : bytes := Eval vm_compute in s2b "pass".
+Definition k_realm : bytes := Eval vm_compute in s2b "realm".
+Definition k_sw : bytes := Eval vm_compute in s2b "sw".
+Definition k_user : bytes := Eval vm_compute in s2b "user".
+
 (* ------------------------------------------------------------------------------------------ decimal numbers *)
 Fixpoint dec_digits (fuel:nat) (n:N) (acc:bytes) : bytes :=
   match fuel with
@@ -46,12 +60,12 @@ Definition strip_suffix (p s:bytes) : option bytes :=
 Definition num_after (p s:bytes) : N := match strip_prefix p s with Some r => num r | None => 9999 end.
 
 (* ------------------------------------------------------------------------------------------ the vocabulary *)
-Definition user_str (u:N) : bytes := s2b "user" ++ dec u.
-Definition pass_str (p:N) : bytes := s2b "pass" ++ dec p.
-Definition realm_str (r:N) : bytes := s2b "realm" ++ dec r ++ s2b ".org".
+Definition user_str (u:N) : bytes := k_user ++ dec u.
+Definition pass_str (p:N) : bytes := k_pass ++ dec p.
+Definition realm_str (r:N) : bytes := k_realm ++ dec r ++ k_dot_org.
 
 (* base64, standard alphabet (RFC 4648 section 4) *)
-Definition b64_alphabet : bytes := s2b "ABCDEFGHIJKLMNOPQRSTUVWXYZabcdefghijklmnopqrstuvwxyz0123456789+/".
+Definition b64_alphabet : bytes := k_b64_alphabet.
 Definition b64_char (i:N) : N := nth (N.to_nat i) b64_alphabet 0.
 Definition b64_enc3 (b0 b1 b2:N) : bytes :=
   let n := (b0 * 256 + b1) * 256 + b2 in
@@ -67,7 +81,7 @@ Definition b64_val (c:N) : option N := index_of c b64_alphabet 0.
    Result: None = not a cookie; Some None = a cookie whose features cannot be read; Some (Some (algs, anon)).
    (In valid UTF-8 a continuation byte cannot follow an ASCII byte, so when the four bytes are alphabet characters both
    ends are boundaries; when one of them is not ASCII the base64 step fails anyway.) *)
-Definition nonce_cookie_header : bytes := s2b "obMatJos2".
+Definition nonce_cookie_header : bytes := k_obMatJos2.
 Definition nonce_features (s:bytes) : option (option (bool * bool)) :=
   match strip_prefix nonce_cookie_header s with
   | Some (c0 :: c1 :: c2 :: c3 :: _) =>
@@ -81,13 +95,13 @@ Definition nonce_features (s:bytes) : option (option (bool * bool)) :=
 (* the nonce flavours of Model.attr.Nonce: 0 plain, 1 cookie without bits, 2 password-algorithms bit, 3 anonymity bit, 4 both,
    5 cookie prefix with undecodable feature characters, 6 feature characters ending inside a two-byte character *)
 Definition nonce_str (n c:N) : bytes :=
-  if c =? 0 then s2b "nonce" ++ dec n
-  else if c =? 1 then nonce_cookie_header ++ b64_enc3 0 0 0 ++ s2b "n" ++ dec n
-  else if c =? 2 then nonce_cookie_header ++ b64_enc3 128 0 0 ++ s2b "n" ++ dec n
-  else if c =? 3 then nonce_cookie_header ++ b64_enc3 64 0 0 ++ s2b "n" ++ dec n
-  else if c =? 4 then nonce_cookie_header ++ b64_enc3 192 0 0 ++ s2b "n" ++ dec n
-  else if c =? 5 then nonce_cookie_header ++ s2b "**=*n" ++ dec n
-  else nonce_cookie_header ++ s2b "abc" ++ [195; 128; 194; 128] ++ s2b "n" ++ dec n.
+  if c =? 0 then k_nonce ++ dec n
+  else if c =? 1 then nonce_cookie_header ++ b64_enc3 0 0 0 ++ k_n ++ dec n
+  else if c =? 2 then nonce_cookie_header ++ b64_enc3 128 0 0 ++ k_n ++ dec n
+  else if c =? 3 then nonce_cookie_header ++ b64_enc3 64 0 0 ++ k_n ++ dec n
+  else if c =? 4 then nonce_cookie_header ++ b64_enc3 192 0 0 ++ k_n ++ dec n
+  else if c =? 5 then nonce_cookie_header ++ k_badfeat_n ++ dec n
+  else nonce_cookie_header ++ k_abc ++ [195; 128; 194; 128] ++ k_n ++ dec n.
 Fixpoint parse_nonce_go (fuel:nat) (c:N) (s:bytes) : N * N :=
   match fuel with
   | O => (9999, 9)
@@ -111,7 +125,7 @@ Definition alg_of (n:N) : alg := if n =? 1 then MD5 else if n =? 2 then SHA256 e
 Definition vget (r:vres bytes) : bytes := match r with VOk b => b | _ => [] end.
 Definition key_bytes (k:keyd) : bytes :=
   match k with
-  | KCorrupt => s2b "irrelevant"
+  | KCorrupt => k_irrelevant
   | KST p => vget (st_key (pass_str p))
   | KLT r p a => vget (lt_key (user_str 0) (realm_str r) (pass_str p) (match a with SHA256 => 2 | _ => 1 end))
   end.
@@ -154,7 +168,7 @@ Definition abs_attr (realms:list N) (b:bytes) (aty off l:N) : attr :=
   (* the text a MAC / CRC placed at this attribute covers: everything before the attribute, with the header length
      counting up to the end of this attribute *)
   let text (vlen:N) := set_len (take (off - 4) b) (off - 4 - 20 + 4 + vlen + pad vlen) in
-  if aty =? 6 then UserName (num_after (s2b "user") v)
+  if aty =? 6 then UserName (num_after (k_user) v)
   else if aty =? 30 then
     match find (fun ur => av_bytes_eqb (user_hash (fst ur) (snd ur)) v)
                (rev (flat_map (fun r => [(0, r); (5, r)]) realms)) with
@@ -162,8 +176,8 @@ Definition abs_attr (realms:list N) (b:bytes) (aty off l:N) : attr :=
     | None => UserHash 9999 9999
     end
   else if aty =? 20 then
-    Realm (match strip_prefix (s2b "realm") v with
-           | Some r => match strip_suffix (s2b ".org") r with Some d => num d | None => 9999 end
+    Realm (match strip_prefix (k_realm) v with
+           | Some r => match strip_suffix (k_dot_org) r with Some d => num d | None => 9999 end
            | None => 9999 end)
   else if aty =? 21 then let '(n, c) := parse_nonce v in Nonce n c
   else if aty =? 32770 then PwdAlgs (map (fun c => alg_of (be_u32 (firstn 2 c))) (chunks4 (List.length v) v))
@@ -176,7 +190,7 @@ Definition abs_attr (realms:list N) (b:bytes) (aty off l:N) : attr :=
     ASHA (match find (fun k => (l =? 32) && av_bytes_eqb (hmac_sha256 (key_bytes k) (text 32)) v) (key_cands realms) with
           | Some k => k | None => KCorrupt end)
   else if aty =? 32808 then AFP ((l =? 4) && av_bytes_eqb (be32 (N.lxor (crc32 (text 4)) 0x5354554e)) v)
-  else if aty =? 32802 then App aty (num_after (s2b "sw") v)
+  else if aty =? 32802 then App aty (num_after (k_sw) v)
   else if aty =? 36 then App aty (if l =? 4 then be_u32 v else 4294967295)
   else App aty (be_u32 (zero_pad4 v)).
 
